@@ -11,6 +11,7 @@ import (
 // Families of generated programs.
 const (
 	FamWire     = "wire"     // dependency graphs, no substitution
+	FamByName   = "byname"   // wire with many by-name points, more of them unsatisfiable
 	FamSubst    = "subst"    // wire + substituting post-processors
 	FamLife     = "life"     // observing processors, runners, lazy components
 	FamClose    = "close"    // closers
@@ -109,6 +110,31 @@ func Generate(seed uint64, id, family string) *sdl.Program {
 	switch family {
 	case FamWire:
 		return genGraph(r, seed, id, family, wireKnobs(r))
+	case FamByName:
+		k := wireKnobs(r)
+		k.PByName, k.PFunc, k.PSatisfiable, k.POptional = 0.6, 0.05, 0.75, 0.4
+		k.MaxPoints = 4
+		p := genGraph(r, seed, id, family, k)
+		// a share of the holders gets an optional point that stays unsatisfied in front of
+		// a by-name point whose name is absent / of an incompatible type (required or optional)
+		for _, t := range p.Types {
+			if t.Zero || !r.p(0.3) {
+				continue
+			}
+			pre := &sdl.Point{Field: "FA", Kind: sdl.KPtr, Target: t.Name, Sel: sdl.SelName, Name: "absent-optional", Optional: true}
+			if r.p(0.5) {
+				pre = &sdl.Point{Field: "FA", Kind: sdl.KIfaces, Iface: r.IntN(p.NIfaces), Sel: sdl.SelType, Optional: true, Quals: []string{"q-none"}}
+			}
+			post := &sdl.Point{Field: "FZ", Kind: sdl.KPtr, Target: t.Name, Sel: sdl.SelName, Name: "absent-required", Optional: r.p(0.3)}
+			if r.p(0.3) {
+				post.Kind, post.Target = sdl.KAny, ""
+			}
+			if r.p(0.3) && len(p.Instances) > 0 {
+				post.Name = p.NameOf(pick(r, p.Instances)) // may be of an incompatible type
+			}
+			t.Points = append(append([]*sdl.Point{pre}, t.Points...), post)
+		}
+		return p
 	case FamSubst:
 		p := genGraph(r, seed, id, family, substKnobs(r))
 		addSubstProcs(r, p)
